@@ -17,8 +17,8 @@ from ..worlds import oworld
 from .lifecycle_sim import World, result, ALL_CLASSES
 from .life_c14 import RELATABLE
 
-from krrood.entity_query_language.entity import let, entity, set_of
-from krrood.entity_query_language.quantify_entity import an
+from krrood.entity_query_language.entity import let, entity, set_of, exists
+from krrood.entity_query_language.quantify_entity import an, the
 from krrood.entity_query_language.symbol_graph import SymbolGraph
 
 
@@ -53,7 +53,13 @@ def generate(rng, cfg: Dict) -> Dict:
         else:
             src = ["graph"]
         consume = c.weighted([("drain", 5), ("take", 2), ("build_only", 1)])
-        cond = c.weighted([(False, 4), (True, 3), ("IsListed", 1.5), ("IsAudited", 1.5), ("collection_eq", 1.5)])
+        cond = c.weighted([(False, 4), (True, 3), ("IsListed", 1.5), ("IsAudited", 1.5), ("collection_eq", 1.5), ("exists", 1.5), ("sub", 2)])
+        if cond == "exists":
+            # a second variable quantified by exists(...): over the graph or over the same explicit domain
+            cond = ["exists", c.pick(["same", "T0", cls]), c.chance(0.5)]
+        elif cond == "sub":
+            # an independent nested sub-query selects one instance by serial; outer quantifier the(...) or an(...)
+            cond = ["sub", c.pick(["the", "an"]), c.pick(["the", "an"]), c.pick(["entity", "attr"]), c.pick(list(classes))]
         body.append(["query", q, cls, src, cond, consume, c.int(0, 2), c.chance(0.6)])
     if c.chance(0.3):
         body.insert(c.int(0, len(body)), [c.pick(["gc", "sweep"])])
@@ -187,7 +193,33 @@ def _do_query(world, op, cycle, program_refs, log, counters) -> bool:
         other = let(cls, domain if not explicit or src[0] == "list" else None)
         query = an(entity(var, getattr(var, collection_field) == getattr(other, collection_field)))
         counters.inc("op.query.collection_eq")
-    elif with_cond in oworld.PREDICATES:
+    elif isinstance(with_cond, list) and with_cond[0] == "exists":
+        other_cls = cls if with_cond[1] == "same" else ALL_CLASSES.get(with_cond[1], cls)
+        other = let(other_cls, domain if (with_cond[2] and src[0] == "list") else None)
+        query = an(entity(var, exists(other, other.serial == var.serial)))
+        counters.inc("op.query.exists")
+    elif isinstance(with_cond, list) and with_cond[0] == "sub":
+        _, outer_q, inner_q, form, target_h = with_cond
+        target = world.handles.get(target_h)
+        wanted = target.serial if target is not None else -5
+        del target
+        inner_var = let(cls, None)
+        inner = (the if inner_q == "the" else an)(entity(inner_var, inner_var.serial == wanted))
+        condition = (var == inner) if form == "entity" else (var.serial == inner.serial)
+        query = (the if outer_q == "the" else an)(entity(var, condition))
+        counters.inc("op.query.sub." + outer_q + "_" + inner_q)
+        if outer_q == "the":
+            # the(...) answers with the one result itself (or raises when there is none / more than one)
+            res = []
+            try:
+                res = [query.evaluate()]
+            except Exception as e:
+                log.add("query-exc", type(e).__name__)
+            log.add("query", cycle, q, sorted(getattr(r, "serial", -1) for r in res))
+            if hold:
+                program_refs[f"q{q}"] = (query, var, inner, inner_var, res)
+            return explicit
+    elif isinstance(with_cond, str) and with_cond in oworld.PREDICATES:
         query = an(entity(var, oworld.PREDICATES[with_cond](x=var)))
         counters.inc("op.query.predicate")
     else:
